@@ -1,70 +1,86 @@
 (* C05 — Cancelling a subprocess terminates its whole process tree, promptly.
-   Property theorems only.  Model: GU.C05.Model — the subprocess package AS REPAIRED by fixes/C05-*.patch (group Cancel; Run
-   watches its context until Wait returns; Stop kills the tree and the group before waiting; NO WaitDelay) over an executable model of the OS rules (process table,
-   SIGTERM / SIGKILL of a group, Wait = reap + pipes) — tied to the code by the runs of harness/cmd/c05 on real trees.
+   Property theorems only.  Model: GU.C05.Model — a small-step model of the subprocess package over an executable model of
+   the OS rules (process table, SIGTERM / SIGKILL of a group, Wait = reap + pipes), PARAMETERISED by a record of facts
+   about the source; the theorems are stated for the model instantiated with the record REGENERATED from the working
+   tree on every run (GU.C05.Gen.gen_facts, written by translator-c05): Setpgid, the Cancel hook, WaitDelay, the body
+   of killProcessGroup, of cmdWrapper.Run / Stop, of Subprocess.Cancel / stop / Execute and of the monitor goroutine.
+   They are proved for EVERY record satisfying the condition each of them needs (facts_ok / no_waitdelay / none), and the
+   condition is discharged on the generated record by computation: a changed fact breaks exactly the theorems that need it.
    A schedule is ANY list of thread labels (Execute/Start, user, monitor goroutine, os/exec's context watcher, the watcher
    of cmdWrapper.Run, every process of the tree); a disabled choice is a no-op. *)
 From Coq Require Import List Bool Arith.
 Import ListNotations.
-From GU Require Import C05.Model C05.Proofs C05.ProofsInv C05.ProofsStart C05.ProofsTerm.
+From GU Require Import C05.Model C05.Gen C05.Proofs C05.ProofsInv C05.ProofsStart C05.ProofsStartTerm C05.ProofsTerm.
+
+Notation G := gen_facts.
 
 (* OS rule used by every path: a kill of the process group leaves nothing of the group alive, for EVERY process table
    (any forest, any flags: TERM-ignoring, pipe holders, exited parents), and nothing of the group comes back afterwards,
-   whatever the processes do next. *)
+   whatever the processes do next.  (Independent of the source facts.) *)
 Theorem group_kill_is_final : forall tb acts,
   no_ingroup_alive (fold_left (fun t i => match pstep i t with Some t' => t' | None => t end) acts (kill_group tb)) = true.
 Proof. exact group_kill_is_final_l. Qed.
 Print Assumptions group_kill_is_final.
 
 (* Bounded: for every tree, every start mode, every stop mode and EVERY schedule, at most 38 + 2*|tree| steps are ever
-   taken: no thread can spin, and whatever can happen has happened after that many effective steps. *)
-Theorem cancel_bounded : forall sm km t sched, steps_taken (init sm km t) sched <= 38 + 2 * tree_size t.
-Proof. exact cancel_bounded_l. Qed.
+   taken.  (Proved for every record of facts: no edit of the anchored functions within the translated fragment can make
+   a thread spin.) *)
+Theorem cancel_bounded : forall sm km t sched, steps_taken G (init sm km t) sched <= 38 + 2 * tree_size t.
+Proof. exact (cancel_bounded_l G). Qed.
 Print Assumptions cancel_bounded.
 
-(* cancel_kills_group (DESIGN): for EVERY tree in which no process that left the group holds the output pipes, every start
-   mode in {Execute, Start, supervisor}, every stop mode in {context cancel, deadline, Cancel(), Stop(), Restart()} — with
-   the one documented exception  Stop()/Restart() on a subprocess started with Execute()  ([supported], refuted just
-   below) — and EVERY schedule: once nothing can move and the stop request has been issued, no process of the group is
-   alive, Execute()/Stop()/Restart() have returned and IsOn() is false.  Together with cancel_bounded: that state is
-   reached after at most 38 + 2*|tree| steps, whatever the interleaving.
-   (The supervisor's restart loop is modelled as one Execute; Restart()'s second half, the new Start, is not modelled.) *)
-Theorem cancel_kills_group : forall sm km t sched,
-  supported sm km = true -> no_outside_holder t = true ->
-  let s := run (init sm km t) sched in
-  terminal s -> fired s = true -> good s.
-Proof. exact cancel_kills_group_full_l. Qed.
-Print Assumptions cancel_kills_group.
-
-(* The full statement is FALSE for Stop()/Restart() on a subprocess started with Execute() (known finding): a reachable
-   state where nothing can move, the request has been issued, the tree is alive, no call has returned, IsOn is true. *)
-Theorem stop_on_execute_refuted : exists t sched,
-  let s := run (init SExecute KStop t) sched in
-  terminal s /\ fired s = true /\ ~ good s.
+(* The full statement is FALSE for Stop()/Restart() on a subprocess started with Execute() (known finding) — the fact behind
+   it is [exec_holds_lock]: Execute keeps the object mutex for the whole run. *)
+Theorem stop_on_execute_refuted : exec_holds_lock G = true /\ exists t sched,
+  let s := run G (init SExecute KStop t) sched in
+  terminal G s /\ fired s = true /\ ~ good s.
 Proof.
-  exists leaf_tree, [LMain; LMain; LUser; LUser].
-  destruct stop_on_execute_refuted_l as (A & B & C & D & E). cbv zeta. repeat split; auto.
-  intros (G & _). rewrite G in C. discriminate.
+  split; [vm_compute; reflexivity|].
+  exists leaf_tree, [LMain; LMain; LUser; LUser]. cbv zeta. repeat split; try (vm_compute; reflexivity).
+  - intros l; destruct l; try (vm_compute; reflexivity). destruct i as [|[|i]]; vm_compute; reflexivity.
+  - intros (_ & C & _). vm_compute in C. discriminate.
 Qed.
 Print Assumptions stop_on_execute_refuted.
 
 (* Without a WaitDelay, a descendant that has LEFT the group and holds the output pipes keeps Execute in Wait although the
    whole group is dead (the property does not ask for its death, but does ask for the return): known finding. *)
 Theorem outside_holder_refuted : exists t sched,
-  let s := run (init SExecute KCtx t) sched in
-  terminal s /\ fired s = true /\ no_ingroup_alive (tbl s) = true /\ ~ good s.
+  let s := run G (init SExecute KCtx t) sched in
+  terminal G s /\ fired s = true /\ no_ingroup_alive (tbl s) = true /\ ~ good s.
 Proof.
   exists away_tree, [LMain; LMain; LProc 0; LUser; LWatch; LRunWatch; LMain; LMon; LMon].
-  destruct outside_holder_refuted_l as (A & B & C & D & E). cbv zeta. repeat split; auto.
-  intros (_ & G & _). rewrite G in D. discriminate.
+  cbv zeta. repeat split; try (vm_compute; reflexivity).
+  - intros l; destruct l; try (vm_compute; reflexivity). destruct i as [|[|[|i]]]; vm_compute; reflexivity.
+  - intros (_ & C & _). vm_compute in C. discriminate.
 Qed.
 Print Assumptions outside_holder_refuted.
 
-(* Runs that are not cancelled are unchanged by the repair: in every state, Run (Execute) leaves Wait only when no live
-   process holds the output pipes — it waits for a descendant that is still writing, whether or not the child has exited. *)
-Theorem run_waits_for_pipes : forall s s', mainpc s = M3 -> step s LMain = Some s' -> no_holder (tbl s) = true.
-Proof. exact run_waits_for_pipes_l. Qed.
+(* Runs that are not cancelled are not cut short: since the source sets no WaitDelay, Run (Execute) leaves Wait only when
+   no live process holds the output pipes — it waits for a descendant that is still writing. *)
+Theorem run_waits_for_pipes : forall s s', mainpc s = M3 -> step G s LMain = Some s' -> no_holder (tbl s) = true.
+Proof. apply run_waits_for_pipes_l. vm_compute. reflexivity. Qed.
 Print Assumptions run_waits_for_pipes.
+
+(* cancel_kills_group (DESIGN): for EVERY tree in which no process that left the group holds the output pipes, every start
+   mode in {Execute, Start, supervisor}, every stop mode in {context cancel, deadline, Cancel(), Stop(), Restart()} — with
+   the one documented exception  Stop()/Restart() on a subprocess started with Execute()  ([supported], refuted just
+   below) — and EVERY schedule: once nothing can move and the stop request has been issued, no process of the group is
+   alive, Execute()/Stop()/Restart() have returned and IsOn() is false.  Together with cancel_bounded: that state is
+   reached after at most 38 + 2*|tree| steps, whatever the interleaving.  Needs facts_ok of the generated record.
+   (The supervisor's restart loop is modelled as one Execute; Restart()'s second half, the new Start, is not modelled.) *)
+Theorem cancel_kills_group : forall sm km t sched,
+  supported sm km = true -> no_outside_holder t = true ->
+  let s := run G (init sm km t) sched in
+  terminal G s -> fired s = true -> good s.
+Proof. apply cancel_kills_group_full_l. vm_compute. reflexivity. Qed.
+Print Assumptions cancel_kills_group.
+
+(* what the generated record must satisfy for cancel_kills_group: the command leads its own group on every platform file
+   and killProcessGroup sends SIGKILL to -pid unguarded; Run = Start, context watcher, Wait, kill if the context is done;
+   Stop kills the group before Wait; Cancel() takes no object lock; stop() re-checks IsOn under the lock and clears
+   isRunning; Execute holds the lock for the whole run and maintains isRunning; the monitor calls stop() on context end *)
+Example generated_facts_ok : facts_ok G = true.
+Proof. vm_compute. reflexivity. Qed.
 
 (* The exception is exactly: *)
 Example supported_table : map (fun sm => map (supported sm) [KCtx; KDeadline; KCancel; KStop; KRestart]) [SExecute; SStart; SSupervisor]
@@ -75,8 +91,8 @@ Proof. reflexivity. Qed.
    does reach a terminal state with the request issued — and it is good, within the bound. *)
 Example c05_nonvacuous :
   let t := T false true false false [leaf_tree; leaf_tree] in
-  let s := run (init SExecute KCtx t) (canonical t 3) in
-  no_outside_holder t = true /\ terminal s /\ fired s = true /\ survivors (tbl s) = 0 /\ call_returned s = true /\ is_on s = false.
+  let s := run G (init SExecute KCtx t) (canonical t 3) in
+  no_outside_holder t = true /\ terminal G s /\ fired s = true /\ survivors (tbl s) = 0 /\ call_returned s = true /\ is_on s = false.
 Proof.
   cbv zeta. repeat split; try (vm_compute; reflexivity).
   intros l; destruct l; try (vm_compute; reflexivity). destruct i as [|[|[|[|i]]]]; vm_compute; reflexivity.
@@ -84,8 +100,8 @@ Qed.
 
 Example c05_nonvacuous_start_stop :
   let t := T false true false true [leaf_tree; T true false false false [leaf_tree]] in   (* parent exits first; a TERM-ignoring, redirected child *)
-  let s := run (init SStart KStop t) (canonical t 4) in
-  no_outside_holder t = true /\ terminal s /\ fired s = true /\ survivors (tbl s) = 0 /\ call_returned s = true /\ is_on s = false.
+  let s := run G (init SStart KStop t) (canonical t 4) in
+  no_outside_holder t = true /\ terminal G s /\ fired s = true /\ survivors (tbl s) = 0 /\ call_returned s = true /\ is_on s = false.
 Proof.
   cbv zeta. repeat split; try (vm_compute; reflexivity).
   intros l; destruct l; try (vm_compute; reflexivity). destruct i as [|[|[|[|[|i]]]]]; vm_compute; reflexivity.
